@@ -413,6 +413,9 @@ pub fn run(tier: &str) -> i32 {
             (Network::Mainnet, 2, 4, vec![1, 2], vec![1, 2], 1),
             (Network::Testnet, 2, 4, vec![1, 2], vec![], 0),
             (Network::Regtest, 2, 5, vec![1, 2], vec![], 0),
+            // nested forks whose longer branch is lighter (weights on both sides of the margin)
+            (Network::Regtest, 1, 5, vec![1, 3], vec![], 0),
+            (Network::Regtest, 2, 6, vec![1, 3], vec![], 0),
         ]
     } else {
         vec![
